@@ -88,7 +88,7 @@ contract('verif:contracts/harness.py::fd_sub_point_is_side_effect_free', ['C12']
 def sub_ghost(it, env, res):
     from pyvc.interp import snapshot
     it.ctx.ghost['subs'] = list(it.ctx.ghost.get('subs', [])) + [snapshot(res, {})]
-    it.ctx.ghost['deltas_used'] = list(it.ctx.ghost.get('deltas_used', [])) + [env.get('local_delta')]
+    it.ctx.ghost['deltas_used'] = list(it.ctx.ghost.get('deltas_used', [])) + [it.last_assumed_args[2]]
 
 
 for K in (1, 2):
